@@ -143,6 +143,10 @@ fn flush(batch: &mut Vec<Prep>, ctx: &mut Ctx) {
 }
 
 fn run_case(line: &str, ctx: &mut Ctx, allow_shrink: bool) {
+    if line.starts_with("ml03 ") {
+        run_ml03(line, ctx);
+        return;
+    }
     if line.starts_with("hist ") {
         run_history(line, ctx);
         return;
@@ -748,6 +752,137 @@ fn exhaustive(args: &Args, rep: &mut Report, max_n: usize, threads: usize) {
     ));
 }
 
+// ---------------------------------------------------------------- the multi-line strategy under the grep model
+
+/// `ml03 <cfg (m1, not inverted)> <pattern-hex> <input-hex>`: the same grep model (context windows, separators,
+/// passthru, numbering, byte count) when the searcher runs its multi-line strategy: a real RegexMatcher built as under
+/// `-U`, patterns that can match the terminator and the empty string (`^$`, `x*`, `\s*`, …, which also "match" the
+/// empty position behind the final terminator), non-matching lines after the last real match. impl vs Lean model vs
+/// `mlSpec`; reader and path strategies vs the slice strategy.
+fn run_ml03(line: &str, ctx: &mut Ctx) {
+    let p: Vec<&str> = line.split_whitespace().collect();
+    let parsed = (|| {
+        if p.len() != 4 {
+            return None;
+        }
+        Some((Cfg::parse_token(p[1])?, String::from_utf8(unhex(p[2])?).ok()?, unhex(p[3])?))
+    })();
+    let Some((cfg0, pattern, input)) = parsed else {
+        ctx.rep.violation(Violation {
+            kind: "impl_vs_model".into(),
+            class: "".into(),
+            tie: "harness".into(),
+            case: line.to_string(),
+            detail: "unparsable ml03 case line".into(),
+        });
+        return;
+    };
+    ctx.rep.eval();
+    let cfg = cfg0.effective();
+    let mut b = grep_regex::RegexMatcherBuilder::new();
+    b.multi_line(true).unicode(true).octal(false);
+    if cfg.lt == Lt::Crlf {
+        b.crlf(true).line_terminator(None);
+    }
+    let m = match b.build(&pattern) {
+        Ok(m) => m,
+        Err(_) => {
+            ctx.rep.branch("ml03:pattern-rejected");
+            return;
+        }
+    };
+    let (tsx, _) = table_sx(&m, &cfg, &input);
+    let head = table_head_sx(&m);
+    let (csx, inp) = (cfg.to_sx(), hex(&input));
+    let path = ctx.drv.ask(&format!("c03.path {} {}", csx, head));
+    let model = ctx.drv.ask(&format!("c03.model {} {} {} (sink all)", csx, tsx, inp));
+    let mut s = cfg.searcher();
+    let imp = run_with(&mut s, &m, &input, Script::All, &Strategy::Slice).0;
+    ctx.rep.branch(&format!("ml03:path:{}", path));
+    let what = format!("{:?} on {:?} [{}]", pattern, show(&input), cfg.token());
+    if imp != model {
+        ctx.rep.violation(Violation {
+            kind: "impl_vs_model".into(),
+            class: "".into(),
+            tie: "Sink event stream of search_slice (multi-line strategy) vs Lean model searchSlice".into(),
+            case: line.to_string(),
+            detail: format!("{}: impl {} model {}", what, imp, model),
+        });
+    }
+    ctx.files += 1;
+    let f = scratch_file(&ctx.scratch, &format!("c03-ml-{}.txt", ctx.files % 64), &input);
+    for st in [Strategy::Reader(1), Strategy::Reader(5), Strategy::Path(f)] {
+        let other = run_with(&mut s, &m, &input, Script::All, &st).0;
+        if other != imp {
+            ctx.rep.violation(Violation {
+                kind: "impl_vs_spec".into(),
+                class: "".into(),
+                tie: format!("{} strategy vs slice strategy (multi-line)", st.name()),
+                case: line.to_string(),
+                detail: format!("{}: {} gives {} slice gives {}", what, st.name(), other, imp),
+            });
+        }
+    }
+    if path != "multi" {
+        return; // downgraded to line-by-line search: the main streams cover it
+    }
+    let spec = ctx.drv.ask(&format!("c03.mlspec {} {} {}", csx, tsx, inp));
+    if is_driver_error(&spec) {
+        ctx.rep.violation(Violation {
+            kind: "impl_vs_model".into(),
+            class: "".into(),
+            tie: "driver c03.mlspec".into(),
+            case: line.to_string(),
+            detail: format!("driver answered {}", spec),
+        });
+        return;
+    }
+    if imp.contains(";c ") {
+        ctx.rep.branch("ml03:context-delivered");
+    }
+    if input.last() == Some(&cfg.lt.byte()) && m.find_at(&input, input.len()).ok().flatten().is_some() {
+        ctx.rep.branch("ml03:empty-match-behind-final-terminator");
+    }
+    if imp != spec {
+        ctx.rep.violation(Violation {
+            kind: "impl_vs_spec".into(),
+            class: "".into(),
+            tie: "multi-line strategy: Sink event stream vs the grep model over the lines covered by the matches (mlSpec)".into(),
+            case: line.to_string(),
+            detail: format!("{}: impl {} spec {}", what, imp, spec),
+        });
+    }
+    if !is_driver_error(&model) && model != spec {
+        ctx.rep.violation(Violation {
+            kind: "model_vs_spec".into(),
+            class: "".into(),
+            tie: "theorem C13_context contradicted".into(),
+            case: line.to_string(),
+            detail: format!("{}: model {} spec {}", what, model, spec),
+        });
+    }
+}
+
+fn ml03_case(rng: &mut Rng) -> String {
+    let lt = *rng.pick(&[Lt::Lf, Lt::Lf, Lt::Crlf]);
+    let cfg = Cfg { lt, inv: false, a: gen_ctx(rng, 3), b: gen_ctx(rng, 3), pt: rng.chance(1, 5), ln: rng.chance(3, 4), son: false, ml: true, bin: Bin::None };
+    let pats = [
+        "^$", "x*", "\\s*", "a\\n", "\\n", "a\\nb", "(?s)a.b", "^", "$", "b?\\n?", "(?:a|\\n)*", "\\n+", "a|^$", "^a?$", "[ab]*$", "\\s+", "a*\\n?",
+        "(?s)b.*a", "^\\s*$", "b|\\z",
+    ];
+    let pat = *rng.pick(&pats);
+    let words = ["a", "b", "", "ab", "c", "x a", "ba", " ", "cc"];
+    let nl = rng.range(0, 7);
+    let mut input = vec![];
+    for i in 0..nl {
+        input.extend_from_slice(rng.pick(&words).as_bytes());
+        if i + 1 < nl || rng.chance(5, 6) {
+            input.extend_from_slice(lt.bytes());
+        }
+    }
+    format!("ml03 {} {} {}", cfg.token(), hex(pat.as_bytes()), hex(&input))
+}
+
 fn main() {
     let args = parse_args();
     let drv = Driver::spawn(&args.driver);
@@ -759,7 +894,9 @@ fn main() {
          streams of search_slice vs Lean model vs grep model; search_reader (1-byte and small chunks) and search_path (mmap / no \
          mmap) vs grep model (byte count after stop_on_nonmatch canonicalised: F10 belongs to C02). Non-trivial = the stream has at \
          least two delivered groups separated by a break and at least one context line. Distinct by case text. Thorough tier adds \
-         the exhaustive enumeration of all selection patterns over <= 10 lines.",
+         the exhaustive enumeration of all selection patterns over <= 10 lines. A further stream runs the multi-line strategy (real \
+         RegexMatcher as under -U; patterns that match the terminator and the empty string, also behind the final terminator; A,B in 0..3, \
+         passthru) against the Lean model and the grep model over the covered lines (mlSpec), slice / reader / path.",
     );
     let mut ctx = Ctx { drv, rep, scratch: args.scratch.clone(), files: 0, searchers: Default::default() };
     for c in corpus_cases(&args) {
@@ -781,6 +918,10 @@ fn main() {
             if i % 25 == 3 {
                 let h = history_case(&mut rng);
                 run_history(&h, &mut ctx);
+            }
+            if i % 10 == 5 {
+                let c = ml03_case(&mut rng);
+                run_ml03(&c, &mut ctx);
             }
             if let Some(p) = prepare(&case, &mut ctx, true) {
                 batch.push(p);
